@@ -13,7 +13,7 @@ git -C /repo archive HEAD inscripta | tar -x -C "$tmp/repo"
 ( cd "$tmp/repo" && git apply "$patch" ) || { echo "PATCH DOES NOT APPLY"; exit 3; }
 rc=0
 for p in "$@"; do
-  VERIF_REPO="$tmp/repo" VERIF_EVIDENCE_DIR="$tmp/ev" "$(dirname "$0")/../check" "$p" ${TIER:+--tier $TIER} | sed "s#$tmp/repo/##g; s#$tmp/ev#<ev>#g" | grep -v '^KNOWN-FINDING' | tail -${LINES_MAX:-12}
+  VERIF_REPO="$tmp/repo" VERIF_EVIDENCE_DIR="$tmp/ev" "$(dirname "$0")/../check" "$p" ${TIER:+--tier $TIER} ${RULE:+--rule $RULE} | sed "s#$tmp/repo/##g; s#$tmp/ev#<ev>#g" | grep -v '^KNOWN-FINDING' | tail -${LINES_MAX:-12}
   c=${PIPESTATUS[0]}; [ $c -gt $rc ] && rc=$c
 done
 exit $rc
